@@ -192,6 +192,19 @@ func Spellings() []Input {
 	}
 	// trailing comments before a closing brace on the next line, raw strings in multi-line attribute
 	// expressions, control characters written as character references, legacy call padding
+	// raw Go and attribute expressions whose line structure gofmt changes (one line split into several, several joined
+	// into one); control flow that starts in the middle of a line; an inline sibling in front of an element that the
+	// formatter lays out with indented children
+	for _, body := range []string{
+		"\t{{ a := 1; b := 2 }}\n\t{ fmt.Sprint(a, b) }", "\t{{ if b { _ = x } }}", "\t<div>{{ a := x; _ = a }}</div>", "\t{{ a := []string{\n\t\tx} }}\n\t{ a[0] }",
+		"\t<div class={ fmt.Sprint(\n\t\t), }></div>", "\t<div title={ fmt.Sprint(\n\t\t) }></div>", "\t<div class={ \"a\",\n\t} id=\"k\"></div>", "\t<div title={ x +\n\t\t\"b\" }></div>",
+		"\t<p>\n\t\t<b>x</b>if b {\n\t\t\t<i>y</i>\n\t\t}\n\t</p>", "\t<p>\n\t\t{ x }for _, v := range xs {\n\t\t\t<i>{ v }</i>\n\t\t}\n\t</p>", "\t<p>\n\t\ttext switch x {\n\t\t\tcase \"a\":\n\t\t\t\t<i>a</i>\n\t\t}\n\t</p>",
+		"\tfor _, v := range xs {\n\t\tif b {\n\t\t\t<b>{ v }</b>\n\t\t}<i>y</i>\n\t}",
+		"\t<div><span>a</span> <span>@c()</span></div>", "\t<div><span>a</span><span>@c()</span></div>", "\t<div><b>k</b><span>{ children... }</span>{ x }</div>", "\t<p>{ x }<a href=\"u\"><!-- c --></a> text</p>",
+		"\t<div><i>a</i><span if b { class=\"a\" }>x</span></div>", "\t<ul><li><b>k</b> <em><script>var a = 1;</script></em></li></ul>",
+	} {
+		add("layout "+body, body)
+	}
 	for _, body := range []string{
 		"\t<div>{ x // c\n\t}</div>", "\t{ x // c\n\t}", "\t{{ y := x // c\n\t}}\n\t{ y }", "\t<div title={ x // c\n\t}></div>",
 		"\t<div title={ x /* c */ }>{ x /* c */ }</div>", "\t<div title={ `raw\nstring` }></div>", "\t<div class={ \"a\",\n\t\t`b\nc`,\n\t}></div>",
@@ -494,7 +507,32 @@ func Classify(src string, tf parser.TemplateFile, formatted string) string {
 			}
 		}
 	})
+	// (D) an if / for / switch statement that starts in the middle of a line (`<b>x</b>if b {`, `{ x }for ... {`) or is
+	// followed on the line of its closing brace by another node (`}<i>y</i>`): the formatter gives the statement lines of
+	// its own, and the generator renders the new line break as a space next to inline content.
+	controlFlowMidLine := false
+	tgen.WalkNodeLists(tf, func(owner string, nodes []parser.Node) {
+		for i, n := range nodes {
+			switch n.(type) {
+			case parser.IfExpression, parser.ForExpression, parser.SwitchExpression:
+			default:
+				continue
+			}
+			if i > 0 {
+				if wt, ok := nodes[i-1].(parser.WhitespaceTrailer); ok && wt.Trailing() == parser.SpaceNone {
+					controlFlowMidLine = true
+				}
+			}
+			if i+1 < len(nodes) {
+				if _, isWS := nodes[i+1].(parser.Whitespace); !isWS {
+					controlFlowMidLine = true
+				}
+			}
+		}
+	})
 	switch {
+	case controlFlowMidLine:
+		return "fmt-control-flow-statement-written-mid-line"
 	case braceOnLastChildLine:
 		return "fmt-closing-brace-on-the-line-of-the-last-child"
 	case inlineMultiline:
